@@ -157,4 +157,6 @@ package state
 // only) or from the local state file, which is trusted: the session invariant of the result is assumed, not proved.
 //@ func State.GetSession
 //@   option trusted
+//@   modifies nothing
+//@   havoc F|state.Session, F|state.State, MP|map[net/netip.Addr]*state.Session
 //@   ensures session: true
